@@ -4,6 +4,8 @@ import FitProps.C17MesgLemmas
 import FitProps.C17TypesLemmas
 import FitProps.C17StrLemmas
 import FitProps.C17UntypedLemmas
+import FitProps.C17UntypedNodupLemmas
+import FitProps.C17MesgnumLemmas
 import FitProps.C17NodupLemmas
 /-!
 # C17 — Generated profile code is exactly what Profile.xlsx prescribes
